@@ -244,10 +244,14 @@ BOUNDED['C05'] = BOUNDED['C05'] + [{'name': 'built-ins-never-panic', 'script': '
 # list contains / index of / distinct values / union compare items with the equality of unit compare: its differential serves C08 too
 BOUNDED['C08'] = BOUNDED['C08'] + [{'name': 'list-and-string-positions-differential', 'script': 'listdiff.py', 'args': [],
                                    'functions': ['core::sublist2 / sublist3 / substring / insert_before / remove / reverse / append / concatenate / flatten / union / distinct_values / count / index_of / list_contains', 'their positional and named wrappers'],
-                                   'bound': 'every list of length 0..4 from {1, 2, 3}, every position -6..6 and length 0..5, pairs of lists for concatenate / union / flatten, strings with non-ASCII and supplementary-plane characters at every position, '
-                                            'positions that are zero, null, not numbers or beyond the machine integers, the named forms: 12 016 evaluations against the definitions written out in Python (the same as the verified contracts); also decides these functions when a rewritten body leaves the extractor\'s reach'}]
+                                   'bound': 'every list of length 0..4 from {1, 2, 3}, every position -6..6 and length 0..5, pairs of lists for concatenate / union / flatten, lists of length 0..3 whose items are lists themselves (also empty ones) or null - an item is ONE item for every function but flatten -, strings with non-ASCII and supplementary-plane characters at every position, '
+                                            'positions that are zero, null, not numbers or beyond the machine integers, the named forms: 17 440 evaluations against the definitions written out in Python (the same as the verified contracts); also decides these functions when a rewritten body leaves the extractor\'s reach'}]
 BOUNDED['C08'] = BOUNDED['C08'] + [{'name': 'equality-differential', 'script': 'eqdiff.py', 'args': [], 'functions': ['core::list_contains', 'core::index_of', 'core::distinct_values', 'core::union', 'builders::evaluate_equals'],
     'bound': 'every ordered pair from a 41-value alphabet under =, !=, list contains, index of (and distinct values / union on seven lists): about 4 000 evaluations; where items of different kinds meet inside lists / contexts only "not equal to true" is demanded'}]
 BOUNDED['C08'] = BOUNDED['C08'] + [{'name': 'aggregates-differential', 'script': 'statdiff.py', 'args': [], 'functions': ['core::sum', 'core::mean', 'core::min', 'core::max', 'core::count', 'core::median', 'core::mode', 'core::stddev'],
     'bound': 'sum, mean, min, max, count, median, mode, stddev over every list of length 0..4 from {1, 2, 3, 2.5, -1} in the list form and of length 1..3 in the variadic and named forms (about 8 000 evaluations) against DMN 1.3 Table 75 / 76 '
              'computed with exact rational arithmetic (stddev to 28 digits); product answers "not implemented" and is not claimed'}]
+
+BOUNDED['C08'] = BOUNDED['C08'] + [{'name': 'number-separators', 'script': 'numberbif.py', 'args': [], 'functions': ['core::number', 'bifs::positional::bif_number', 'bifs::named::bif_number'],
+    'bound': 'number(from, grouping separator, decimal separator) for 30 texts x every pair of separators from {" ", ",", ".", null, "$", "", ";", 1}, positional and named form (3 840 evaluations) against DMN 1.3 Table 72: '
+             'grouping separator a space / comma / period / null, decimal separator a period / comma / null, the two different, the text without grouping separators and with the decimal separator read as a period a numeric literal - else null'}]
